@@ -659,6 +659,13 @@ func genPlanC09(rt *rapid.T) *Plan {
 	}
 	p.Consumer = []ConStep{{AfterUs: 50, Kind: "drain"}}
 	p.TailUs = rapid.IntRange(0, 2*hms).Draw(rt, "tail") * 1000
+	if rapid.IntRange(0, 3).Draw(rt, "discres-write-fails") == 0 {
+		// the socket refuses some disconnect responses (a connected UDP socket does after an ICMP error): the
+		// disconnect request ends the connection all the same
+		for i := 0; i < rapid.IntRange(1, 3).Draw(rt, "n-discres-fail"); i++ {
+			p.FailDiscRes = append(p.FailDiscRes, rapid.IntRange(0, 3).Draw(rt, "discres-fail-at"))
+		}
+	}
 	return p
 }
 
